@@ -105,7 +105,7 @@ type agg struct {
 
 const maxDeaths = 3
 
-var deadRe = regexp.MustCompile(`VERIF-DEAD kind=(\w+) scope=(\S+) idx=(\d+)`)
+var deadRe = regexp.MustCompile(`VERIF-DEAD kind=(\w+) scope=(.*) idx=(\d+)`)
 var atRe = regexp.MustCompile(`(?m)^AT (\d+)$`)
 
 type tailBuf struct {
@@ -203,6 +203,14 @@ func (p *proc) kill() {
 func locateDeath(env *Env, scopes []*Scope, j job, stderrTail string) (idx uint64, kind, detail string, ok bool) {
 	if m := deadRe.FindStringSubmatch(stderrTail); m != nil {
 		ix, _ := strconv.ParseUint(m[3], 10, 64)
+		// a watchdog firing is believed only if the same case hangs again in a fresh worker
+		if p, err := startProc(env.Exe, env.ID, env.Tier, true); err == nil {
+			_, err = p.do(job{scope: j.scope, lo: ix, hi: ix + 1})
+			p.kill()
+			if err == nil {
+				return ix, "spurious-watchdog", "", false
+			}
+		}
 		return ix, m[1], "worker watchdog: single library call exceeded " + strconv.Itoa(HangSeconds) + " s", true
 	}
 	p, err := startProc(env.Exe, env.ID, env.Tier, true)
@@ -393,6 +401,24 @@ func RunScopes(env *Env, exe string, scopes []*Scope, jobs []job) *Summary {
 				p.kill()
 				p = nil
 				ix, kind, detail, found := locateDeath(env, scopes, j, tail)
+				if !found && kind == "spurious-watchdog" {
+					// the case runs to completion when repeated: the process had been frozen, not the call
+					a.mu.Lock()
+					sum.Caps = append(sum.Caps, fmt.Sprintf("watchdog fired on %s case %d but the case completes when repeated (process frozen?): shard re-run", scopes[j.scope].Name, ix))
+					a.mu.Unlock()
+					r2, err2 := func() (*shardResult, error) {
+						p2, e := startProc(exe, env.ID, env.Tier, false)
+						if e != nil {
+							return nil, e
+						}
+						defer p2.kill()
+						return p2.do(j)
+					}()
+					if err2 == nil {
+						a.done(j, r2, nil)
+						continue
+					}
+				}
 				if !found {
 					a.mu.Lock()
 					sum.Internal = append(sum.Internal, fmt.Sprintf("worker died on %s [%d,%d) and the death did not reproduce: %v; stderr: %.400s", scopes[j.scope].Name, j.lo, j.hi, err, tail))
